@@ -25,7 +25,7 @@ func hC11Hostile() {
 	if verifTier() == 0 {
 		aspect = verifChoose("aspect", 11)
 	}
-	cfg := &pipeCfg{maxMsg: 8, clientCodec: CodecProto}
+	cfg := &pipeCfg{maxMsg: 64, clientCodec: CodecProto} // above every length the symbolic bytes can state (limits: C10)
 	cfg.svcProtos = []Protocol{pipeProtocols[verifChoose("target", 4)]}
 	cfg.svcCodecs = []string{[]string{CodecJSON, CodecProto}[c11choose(aspect, 0, "svcCodec", 2)]}
 	cfg.svcComp = c11choose(aspect, 0, "svcComp", 2) == 1
@@ -59,7 +59,7 @@ func hC11Hostile() {
 	clMode := c11choose(aspect, 3, "respContentLength", 4) // absent, exact, symbolic digit, garbage
 	behaviour := 2
 	if c11vary(aspect, 4) {
-		behaviour = verifChoose("behaviour", 5)
+		behaviour = verifChoose("behaviour", 6)
 	}
 	passedThrough := false
 	p.tr.methods[pipePath].handler = http.HandlerFunc(func(w http.ResponseWriter, r *http.Request) {
@@ -85,6 +85,23 @@ func hC11Hostile() {
 			h.Set("Content-Length", string([]byte{verifNondetByte("clDigit")}))
 		case 3:
 			h.Set("Content-Length", "-1")
+		}
+		if behaviour == 5 {
+			// a complete, valid response for the target protocol followed by stray bytes in the same Write
+			h.Set("Content-Type", p.backendContentType())
+			h.Del("Content-Length")
+			w.WriteHeader(200)
+			var end []byte
+			switch p.backend.target {
+			case ProtocolGRPCWeb:
+				end = appendFrame(nil, 0x80, []byte("grpc-status: 0\r\n"))
+			case ProtocolConnect:
+				if !p.backend.unary {
+					end = appendFrame(nil, 2, []byte("{}"))
+				}
+			}
+			w.Write(append(end, nondetBytes("stray", verifChoose("strayLen", 2)+1)...))
+			return
 		}
 		if behaviour != 1 {
 			w.WriteHeader(status)
